@@ -100,10 +100,15 @@ def rule_D1(ctx, F):
     # detect(): which *_detected true-edge returns which variant, in descending order of width
     det = F.need_fn("platform::Platform::detect")
     seen = {}
-    for b, gs, e in ret_alternatives(det):
-        if e[0] == "adt":
-            pos = [c[1].split("::")[-1].replace("_detected", "") for c, tr in gs if tr is True and c[0] == "call" and c[1].endswith("_detected")]
-            seen[e[2]] = pos
+    # every place where a Platform variant is CONSTRUCTED inside detect() (helpers new to the inventory are inlined), with the
+    # *_detected() calls on whose true edge it sits -- however the value then travels to the return (directly, through an Option, ..)
+    for bi, si, st in det.stmts():
+        rv = st["rv"]
+        if rv.get("k") == "agg" and rv.get("adt", "").endswith("Platform") and rv.get("variant"):
+            gs = guards_at(det, bi)
+            pos = [c[1].split("::")[-1].replace("_detected", "") for c, tr in gs if tr is True and isinstance(c, tuple) and c[0] == "call" and c[1].endswith("_detected")]
+            prev = seen.get(rv["variant"])
+            seen[rv["variant"]] = pos if prev is None or len(pos) < len(prev) else prev
     for v, d in VARIANT_DETECT.items():
         if v in variants:
             ctx.ob(seen.get(v, [None])[-1:] == [d], "detect-returns:%s" % v, det.loc, "detect() returns Platform::%s on the true edge of %s ; required %s_detected()" % (v, seen.get(v), d))
